@@ -19,7 +19,8 @@ EXPLANATION = (
     "all exits incl. exceptional; (R3) reaching definitions: everything a retry iteration commits is derived "
     "inside that iteration from a fresh refresh(); (R5) exactly-once: begin() resets state, is_active() guards, "
     "one commit point per iteration, success implies _finish_committed; (R6) acquire/release typestate at every "
-    "lock_provider.acquire() site; (R4) write-once names, shared with C09.R1.")
+    "lock_provider.acquire() site; (R4) write-once names, shared with C09.R1."
+    ' Also: (R3b) every retry loop around MetadataManager.commit rebuilds both arguments inside the iteration; (R7/R8) the local lock keeps its shape (non-blocking flock, the lock file is never unlinked in flock mode); (R9) an ambiguous failure is never retried as a clean conflict (handler order incl. class hierarchy).')
 NOT_DECIDED = ("that flock / the S3 CAS lock actually excludes; the final-state-equals-serial-order statement "
                "over interleavings; linearity of the surviving chain at run time")
 
